@@ -8,7 +8,7 @@ PROPERTY_RULES = {
     "C03": ["r_a2", "r_a3"],
     "C04": ["r_a8", "r_e1", "r_a6"],
     "C05": ["r_b1", "r_o3", "r_a2", "r_a12"],
-    "C06": ["r_b1", "r_o3"],
+    "C06": ["r_b1", "r_o3", "r_a2"],
     "C07": ["r_a12"],
     "C08": ["r_a11", "r_o3", "r_a2", "r_a4"],
     "C09": ["r_c4", "r_c3", "r_c1", "r_c5"],
